@@ -144,10 +144,12 @@ def run_in_sandbox(name, vdir, rdir, props=None):
     return res
 
 
-def runall_parallel(jobs):
-    """whole regression with `jobs` sandboxes under /tmp (removed afterwards)"""
+def runall_parallel(jobs, only=None):
+    """whole regression (or the named changes only) with `jobs` sandboxes under /tmp (removed afterwards)"""
     import threading
     names = sorted(n for n in os.listdir(SEEDED) if os.path.exists(os.path.join(SEEDED, n, "patch.diff")))
+    if only:
+        names = [n for n in names if n in only]
     rc, out = sh(["git", "-C", "/repo", "status", "--porcelain", "--untracked-files=no"])
     assert out.strip() == "", "/repo has uncommitted changes: " + out
     base = tempfile.mkdtemp(prefix="seedpar_", dir="/tmp")
@@ -179,13 +181,19 @@ def runall_parallel(jobs):
         sh(["git", "-C", "/repo", "worktree", "remove", "--force", rdir])
     shutil.rmtree(base, ignore_errors=True)
     sh(["git", "-C", "/repo", "worktree", "prune"])
-    with open(os.path.join(SEEDED, "RESULTS.json"), "w") as f:
-        json.dump([results[n] for n in names], f, indent=1)
+    merged = {}
+    rp = os.path.join(SEEDED, "RESULTS.json")
+    if only and os.path.exists(rp):
+        with open(rp) as f:
+            merged = {r["name"]: r for r in json.load(f)}
+    merged.update(results)
+    with open(rp, "w") as f:
+        json.dump([merged[n] for n in sorted(merged)], f, indent=1)
 
 
 def main():
     if sys.argv[1] == "runall" and len(sys.argv) > 3 and sys.argv[2] == "--jobs":
-        runall_parallel(int(sys.argv[3]))
+        runall_parallel(int(sys.argv[3]), only=sys.argv[4:] or None)
         return
     if sys.argv[1] == "confirm":
         print(json.dumps(confirm(sys.argv[2], sys.argv[3], sys.argv[4]), indent=1))
